@@ -28,6 +28,11 @@ type c12Case struct {
 	Sector int    `json:"sector"`
 	Label  string `json:"label"`
 	Prior  string `json:"prior,omitempty"` // filesystem type whose bytes are left in the range
+	// boundary mode: search [Lo,Hi] (sectors) for the sizes where CreateFilesystem flips between
+	// refusing and accepting, then run the recognition case at every sector within +-Win of each flip
+	Lo  int64 `json:"lo,omitempty"`
+	Hi  int64 `json:"hi,omitempty"`
+	Win int64 `json:"win,omitempty"`
 }
 
 var fsTypeOf = map[string]filesystem.Type{
@@ -71,9 +76,85 @@ func c12Make(d *disk.Disk, part int, typ, label string, content []byte) error {
 	return nil
 }
 
+// c12Accepts: does CreateFilesystem accept a whole-disk range of n sectors for this type?
+func c12Accepts(typ string, sector int, n int64) bool {
+	st := monstore.NewMem(n * int64(sector))
+	ok := false
+	core.Guard(func() {
+		d, err := diskfs.OpenBackend(fileNewRW(st), sectorOpt(sector))
+		if err != nil {
+			return
+		}
+		_, err = d.CreateFilesystem(disk.FilesystemSpec{Partition: 0, FSType: fsTypeOf[typ], VolumeLabel: "B"})
+		ok = err == nil
+	})
+	return ok
+}
+
+// c12Boundary finds the accept/refuse flips of CreateFilesystem(typ) by a geometric scan plus bisection - the
+// thresholds are taken from the running code, so a threshold that moved is followed - and runs the full
+// recognition case at every sector size around each flip.
+func c12Boundary(c core.Case, env *core.Env, p c12Case) core.Result {
+	var res core.Result
+	var pts []int64
+	for n := p.Lo; n <= p.Hi; n += n/24 + 1 {
+		pts = append(pts, n)
+	}
+	var flips []int64 // first size of the new regime
+	prev := c12Accepts(p.Type, p.Sector, pts[0])
+	for i := 1; i < len(pts); i++ {
+		cur := c12Accepts(p.Type, p.Sector, pts[i])
+		res.Evals++
+		if cur != prev {
+			lo, hi := pts[i-1], pts[i] // accepts(lo)==prev, accepts(hi)==cur
+			for hi-lo > 1 {
+				mid := (lo + hi) / 2
+				res.Evals++
+				if c12Accepts(p.Type, p.Sector, mid) == prev {
+					lo = mid
+				} else {
+					hi = mid
+				}
+			}
+			flips = append(flips, hi)
+			res.Mark(fmt.Sprintf("%s accept/refuse flip found", p.Type))
+		}
+		prev = cur
+	}
+	res.Count("boundary.flips."+p.Type, int64(len(flips)))
+	done := map[int64]bool{}
+	for _, f := range flips {
+		for n := f - p.Win; n <= f+p.Win; n++ {
+			if n < 1 || done[n] {
+				continue
+			}
+			done[n] = true
+			q := c12Case{Type: p.Type, Where: p.Where, Size: n * int64(p.Sector), Sector: p.Sector, Label: "EDGE"}
+			r := c12Run(core.MkCase(fmt.Sprintf("%s-%s-%dsect", p.Type, p.Where, n), "recognise-"+p.Type, c.Seed^n, q), env)
+			for _, fd := range r.Findings {
+				res.FailReplay(fd.Key, fd.Detail, fd.Witness, core.MkCase(fmt.Sprintf("%s-%s-%dsect", p.Type, p.Where, n), "recognise-"+p.Type, c.Seed^n, q))
+			}
+			for k, v := range r.Counters {
+				res.Count(k, v)
+			}
+			res.Sigs = append(res.Sigs, r.Sigs...)
+			for _, m := range r.Marks {
+				res.Mark(m)
+			}
+			res.Evals++
+			res.Count("boundary.sizes-checked."+p.Type, 1)
+		}
+	}
+	res.Sample = map[string]any{"type": p.Type, "flips_first_sector_of_new_regime": flips}
+	return res
+}
+
 func c12Run(c core.Case, env *core.Env) core.Result {
 	var p c12Case
 	c.Decode(&p)
+	if p.Win > 0 {
+		return c12Boundary(c, env, p)
+	}
 	var res core.Result
 	fail := func(rule, cause, f string, a ...any) {
 		res.Fail(fmt.Sprintf("C12/%s/%s/%s", p.Type, rule, cause), fmt.Sprintf(f, a...), p)
@@ -222,6 +303,11 @@ func c12Run(c core.Case, env *core.Env) core.Result {
 		if strings.HasPrefix(p.Type, "fat") && want == "" {
 			want = "NO NAME"
 		}
+		if p.Type == "ext4" && want == "" {
+			// an empty VolumeLabel is the zero value = "not specified"; the library documents and
+			// substitutes ext4.DefaultVolumeName, like mkfs.fat's NO NAME
+			want = "diskfs_ext4"
+		}
 		if got != want {
 			fail("label", p.Type, "label %q reads back as %q", p.Label, fs.Label())
 		}
@@ -334,6 +420,21 @@ func c12Cases(seed int64, tier string) []core.Case {
 			}
 		}
 	}
+	// accept/refuse thresholds of the FAT types, located at run time, every sector size around them
+	win := int64(48)
+	wheres := []string{"whole"}
+	if tier == "thorough" {
+		win = 160
+		wheres = []string{"whole", "gpt", "mbr"}
+	}
+	for _, w := range wheres {
+		for _, b := range []struct {
+			t      string
+			lo, hi int64
+		}{{"fat12", 8, 300000}, {"fat16", 2000, 5000000}, {"fat32", 64, 3000000}} {
+			cs = append(cs, core.MkCase(fmt.Sprintf("boundary-%s-%s", b.t, w), "boundary-"+b.t, r.Int63(), c12Case{Type: b.t, Where: w, Sector: 512, Lo: b.lo, Hi: b.hi, Win: win}))
+		}
+	}
 	// blank ranges, also with a removed-table device
 	for _, w := range []string{"whole", "gpt", "mbr"} {
 		for _, sec := range []int{512, 4096} {
@@ -347,10 +448,10 @@ func init() {
 	core.Register(&core.Check{
 		ID:    "C12",
 		Level: "exploration",
-		Rule: "disk.CreateFilesystem(T, label) for T in {fat12, fat16, fat32, ext4, iso9660, squashfs} on the whole disk, in a GPT partition and in an MBR partition of a store-backed disk (512-byte sectors; 4096 for iso9660/squashfs), sizes bracketing each type's limits and (thorough) stepping across the FAT cluster-count thresholds, labels {empty, upper, 11 chars, lower case, with space}; one file is written (and the image finalized where needed); a freshly opened disk on the same bytes must report the table type, GetFilesystem(n).Type()==T, the label and the file's content; every ordered pair (previous type -> new type) is created in the same range without wiping; blank ranges must give the unknown-filesystem error. Non-trivial = filesystem accepted by CreateFilesystem and re-opened; distinct = distinct configuration",
+		Rule: "disk.CreateFilesystem(T, label) for T in {fat12, fat16, fat32, ext4, iso9660, squashfs} on the whole disk, in a GPT partition and in an MBR partition of a store-backed disk (512-byte sectors; 4096 for iso9660/squashfs), sizes bracketing each type's limits and (thorough) stepping across the FAT cluster-count thresholds, labels {empty, upper, 11 chars, lower case, with space}; for the FAT types the sizes where CreateFilesystem flips between refusing and accepting are located at run time (geometric scan + bisection on a whole-disk range) and every sector size within +-48 (thorough +-160, also in partitions) of each flip is driven; one file is written (and the image finalized where needed); a freshly opened disk on the same bytes must report the table type, GetFilesystem(n).Type()==T, the label and the file's content; every ordered pair (previous type -> new type) is created in the same range without wiping; blank ranges must give the unknown-filesystem error. Non-trivial = filesystem accepted by CreateFilesystem and re-opened; distinct = distinct configuration",
 		Assumptions: []string{"fat12/fat16/ext4 accept only 512-byte sectors and iso9660/squashfs need 2048+/4096: stale-bytes pairs that cannot share a disk are not driven", "a refusal by CreateFilesystem is an observation"},
 		MinSigs:   map[string]int{"quick": 70, "thorough": 250},
-		NeedMarks: []string{"fat12 on whole", "fat16 on gpt", "fat32 on mbr", "ext4 on gpt", "iso9660 on whole", "squashfs on whole", "blank range"},
+		NeedMarks: []string{"fat12 accept/refuse flip found", "fat16 accept/refuse flip found", "fat32 accept/refuse flip found", "fat12 on whole", "fat16 on gpt", "fat32 on mbr", "ext4 on gpt", "iso9660 on whole", "squashfs on whole", "blank range"},
 		CPUSec:    600,
 		Cases:     c12Cases,
 		Run:       c12Run,
